@@ -15,15 +15,31 @@ CURRENT_VARIANTS = [1, 0, 0, 0]      # tag_after, rerender, empty_raises, marker
 
 
 def run_real(c):
-    root = yamlfs.new_root()
+    import logging
+    import os
+    base_dir = yamlfs.new_root()
+    root = base_dir
+    lg = logging.getLogger("vinegar")
+    old_level = lg.level
+    if c.get("loglevel"):
+        lg.setLevel(getattr(logging, c["loglevel"]))
     try:
+        if c.get("rootname"):
+            # unusual characters in root_dir; "@link": root_dir is a symbolic link to the real directory
+            real = os.path.join(base_dir, c["rootname"].replace("@link", "target"))
+            os.makedirs(real)
+            root = real
+            if "@link" in c["rootname"]:
+                root = os.path.join(base_dir, "cur rent")
+                os.symlink(os.path.basename(real) if "/" not in c["rootname"] else real, root)
         yamlfs.materialise(c["tree"], root)
         if c.get("faults"):
             with yamlfs.Faults(root, c["faults"]):
                 return _get_once(c, root)
         return _get_once(c, root)
     finally:
-        shutil.rmtree(root, ignore_errors=True)
+        lg.setLevel(old_level)
+        shutil.rmtree(base_dir, ignore_errors=True)
 
 
 def _get_once(c, root):
@@ -352,6 +368,14 @@ class C11(Check):
                 yield {"tree": tree, "engine": False, "ml": ml, "ms": True, "allow_empty": False, "sys": "s1", "pd": {}, "pv": ""}
         for i, tree in enumerate(limit_family()):
             yield {"tree": tree, "engine": bool(i % 2), "ml": False, "ms": True, "allow_empty": False, "sys": "s1", "pd": {}, "pv": ""}
+        # root_dir with unusual characters / as a symbolic link, logging levels, YAML tags giving tuples, bytes, dates
+        exotic = {"top.yaml": "'*': [a, b]\n", "a.yaml": "bo: !!omap [ disk: {timeout: 5}, net: [1, 2] ]\nbin: !!binary aGVsbG8=\nwhen: 2001-12-14\n",
+                  "b.yaml": "bo: !!pairs [ a: {x: 1}, a: [2] ]\nst: !!set {a: null}\ninclude: [c]\n", "c.yaml": "bo: !!omap [ disk: {timeout: 6} ]\n"}
+        for i, name in enumerate(("r %41", "\u00e9 dir", "a b/c", "x%", "@link", "d @link")):
+            for tree in (exotic, directed()[4], revisit_family()[3]):
+                for ml in (False, True):
+                    yield {"tree": tree, "engine": bool(i % 2), "ml": ml, "ms": True, "allow_empty": False, "sys": "s1", "pd": {}, "pv": "",
+                           "rootname": name, "loglevel": ("DEBUG", "INFO", "WARNING")[i % 3]}
         # unusual but valid configuration values (truthy / falsy non-bools where the code only tests truth)
         for tree in directed()[:6] + falsy_family()[:6]:
             for raw in ({"merge_lists": 1, "merge_sets": 0, "allow_empty_top": "yes"}, {"merge_lists": "", "merge_sets": 2.5, "allow_empty_top": 0},
